@@ -61,6 +61,9 @@ CHECKS = {
     "C12": ("exploration", E1 + " (circuit families x scales x start perturbations; method x weight x limit box x fixed subset x constraint set)",
             "Recovery with the automatic method/weight choice on six identifiable circuit families x three impedance scales x three start perturbations (18 quick / 66 thorough fits of 36 sub-fits each), and about 600 (2300) invariant fits crossing methods, weights, limit boxes (incl. limits beyond the class defaults and boxes that exclude the truth), subsets of fixed parameters and constraint sets; oracles: generating parameters up to a swap of identical blocks, vanishing pseudo chi-squared, bounds, bit-identical fixed values, constraints, parameter table and data frame equal to the returned circuit, untouched inputs, and winner = smallest pseudo chi-squared among the individually run pairs.",
             "Declared finite grid of families and scales; a FittingError is an accepted refusal; invariant fits are capped at 200 function evaluations.", "DESIGN.md section 4, C12"),
+    "C10": ("exploration", E1 + " (finite grid of circuits x noise levels x seeds with a frozen acceptance band)",
+            "Every bundled valid mock circuit (8 cheapest in quick, all 19 in thorough) and RC/RQ ladders x three noise levels x seeds 0..K-1 through the default automatic test: estimated/injected noise inside the frozen band [0.33, 5], suggested num_RC inside its reported limits, wrapper agrees with the exploratory entry point; drift-corrupted counterparts must have >= 2x the pseudo chi-squared at low noise. This is the weakest claim of the set: a statistical property decided on an enumerated grid only.",
+            "Band calibrated once on the unchanged tree (observed 0.84..2.55) and frozen; changes that mis-calibrate by less than about 2x are not detectable.", "DESIGN.md section 4, C10"),
 }
 
 NOT_YET = "check not built yet in this round (planned, see DESIGN.md section 4)"
